@@ -135,57 +135,71 @@ def run(ctx, report: Report) -> None:
 
     # ---- R1 ---------------------------------------------------------------------------------------------------
     r1 = report.rule('C02-R1', 'interval beliefs about the nth candidate index agree', floor=2)
-    mod, fn = src.func('css_match.CSSMatch.match_nth')
-    whiles = [n for n in ast.walk(fn) if isinstance(n, ast.While)]
-    cand = {}
-    for w in whiles:
-        for nm in {n.id for n in ast.walk(w.test) if isinstance(n, ast.Name)}:
-            if any(True for _ in comparisons_on(w.test, nm)):
-                cand[nm] = cand.get(nm, 0) + 1
-    if not cand or max(cand.values()) < 2:
-        raise AnalysisError('match_nth: no index variable compared in two while-loop tests (anchor vanished)')
-    idx = max(cand, key=lambda k: cand[k])
-    defs = single_defs(fn)
-    defs.pop(idx, None)
-    beliefs = {'lo': {}, 'hi': {}}
-    sites = []
-    for node in ast.walk(fn):
-        test = None
-        if isinstance(node, (ast.While, ast.If)):
-            test = node.test
-        elif isinstance(node, ast.IfExp):
-            test = node.test
-        if test is None:
+    mod, fn0 = src.func('css_match.CSSMatch.match_nth')
+    # the index search lives in match_nth or in helper functions it calls: every function of css_match that compares one
+    # variable with a bound in two or more while-loop tests is examined on its own
+    cg = ctx.get('callgraph', lambda: __import__('sa.callgraph', fromlist=['CallGraph']).CallGraph(ctx.types, src))
+    fns = []
+    for q in sorted(cg.reachable(['css_match.CSSMatch.match_nth'])):
+        if q.startswith('css_match.') and '<' not in q:
+            try:
+                fns.append((q, src.func(q)[1]))
+            except Exception:  # noqa: BLE001
+                pass
+    examined = 0
+    for q, fn in fns:
+        whiles = [n for n in ast.walk(fn) if isinstance(n, ast.While)]
+        cand = {}
+        for w in whiles:
+            for nm in {n.id for n in ast.walk(w.test) if isinstance(n, ast.Name)}:
+                if any(True for _ in comparisons_on(w.test, nm)):
+                    cand[nm] = cand.get(nm, 0) + 1
+        if not cand or max(cand.values()) < 2:
             continue
-        for op, other, left in comparisons_on(test, idx):
-            if isinstance(op, (ast.Eq, ast.NotEq, ast.Is, ast.IsNot)):
+        idx = max(cand, key=lambda k: cand[k])
+        params = {a_.arg for a_ in fn.args.args}
+        defs = single_defs(fn)
+        defs.pop(idx, None)
+        beliefs = {'lo': {}, 'hi': {}}
+        for node in ast.walk(fn):
+            test = None
+            if isinstance(node, (ast.While, ast.If)):
+                test = node.test
+            elif isinstance(node, ast.IfExp):
+                test = node.test
+            if test is None:
                 continue
-            lf = lin(other, defs)
-            if lf is None:
-                raise AnalysisError(f'{mod.where(node)}: bound {unparse(other)} of {idx} is not a linear form')
-            if not lf.is_const() and not any(k.startswith('len(') for k in lf.terms):
-                # comparison with another run-time quantity (e.g. a previous index): not a range belief
-                continue
-            b = bound_of(op, lf, left)
-            if b is None:
-                continue
-            kind, val = b
-            beliefs[kind].setdefault(val.key(), []).append((repr(val), unparse(test), mod.where(node)))
-            sites.append({'where': mod.where(node), 'test': unparse(test), 'belief': f'{kind} = {val!r}'})
-            r1.instance(sites[-1], key=f'{kind}|{unparse(test)}|{val!r}')
-    for kind in ('lo', 'hi'):
-        r1.obligation(len(beliefs[kind]) <= 1)
-        if len(beliefs[kind]) > 1:
-            groups = sorted(beliefs[kind].values(), key=lambda g: -len(g))
-            major = groups[0][0][0]
-            for g in groups[1:]:
-                for val, test, where in g:
-                    r1.violation(
-                        f'css_match.CSSMatch.match_nth {kind} {test}', where,
-                        f'match_nth: `{test}` treats the {"first" if kind == "lo" else "last"} in-range value of '
-                        f'{idx} as {val}, other tests as {major}; positions equal to the disputed bound are mishandled')
-    if not beliefs['lo'] or not beliefs['hi']:
-        raise AnalysisError('match_nth: lower or upper range test on the candidate index not found')
+            for op, other, left in comparisons_on(test, idx):
+                if isinstance(op, (ast.Eq, ast.NotEq, ast.Is, ast.IsNot)):
+                    continue
+                lf = lin(other, defs)
+                if lf is None:
+                    continue
+                if not lf.is_const() and not all(k.startswith('len(') or k in params for k in lf.terms):
+                    # comparison with another run-time quantity (e.g. a previous index): not a range belief
+                    continue
+                b_ = bound_of(op, lf, left)
+                if b_ is None:
+                    continue
+                kind, val = b_
+                beliefs[kind].setdefault(val.key(), []).append((repr(val), unparse(test), mod.where(node)))
+                r1.instance({'function': q, 'where': mod.where(node), 'test': unparse(test), 'belief': f'{kind} = {val!r}'},
+                            key=f'{q}|{kind}|{unparse(test)}|{val!r}')
+        examined += 1
+        for kind in ('lo', 'hi'):
+            r1.obligation(len(beliefs[kind]) <= 1)
+            if len(beliefs[kind]) > 1:
+                groups = sorted(beliefs[kind].values(), key=lambda g: -len(g))
+                major = groups[0][0][0]
+                for g in groups[1:]:
+                    for val, test, where in g:
+                        r1.violation(
+                            f'{q} {kind} {test}', where,
+                            f'{q.split(".")[-1]}: `{test}` treats the {"first" if kind == "lo" else "last"} in-range value of '
+                            f'{idx} as {val}, other tests as {major}; positions equal to the disputed bound are mishandled')
+    if not examined:
+        r1.note('no function reachable from match_nth compares an index with its bounds in two loop tests: the consistency rule has '
+                'nothing to compare on this tree; the bounded An+B table below is the deciding part')
 
     # ---- R2 ---------------------------------------------------------------------------------------------------
     r2 = report.rule('C02-R2', 'NTH (token grammar) and RE_NTH (splitter) are the same language', floor=1)
@@ -297,30 +311,8 @@ def run(ctx, report: Report) -> None:
         r4.violation('css_parser.CSS_NTH_OF_S_DEFAULT', 'soupsieve/css_parser.py (CSS_NTH_OF_S_DEFAULT)',
                      f'the implicit "of S" of :nth-child()/:nth-last-child() is `{dflt}`; it must be `*|*`: anything else filters the '
                      f'siblings that are counted (`*` alone is subject to the default namespace of the caller\'s map)')
-    # fields of SelectorNth read through the loop variable of match_nth
-    tm, tcls = src.cls('css_types.SelectorNth')
-    slots = None
-    for st in tcls.body:
-        if isinstance(st, ast.Assign) and unparse(st.targets[0]) == '__slots__':
-            slots = [e for e in inv.folder.ev('css_types', st.value) if e != '_hash']
-    if not slots:
-        raise AnalysisError('SelectorNth.__slots__ not found')
-    loopvar = None
-    for node in ast.walk(fn):
-        if isinstance(node, ast.For) and isinstance(node.target, ast.Name) and isinstance(node.iter, ast.Name) \
-                and node.iter.id in [a.arg for a in fn.args.args]:
-            loopvar = node.target.id
-    if loopvar is None:
-        raise AnalysisError('match_nth: loop over the nth records not found')
-    read = {n.attr for n in ast.walk(fn) if isinstance(n, ast.Attribute) and isinstance(n.value, ast.Name)
-            and n.value.id == loopvar}
-    for f in slots:
-        r4.instance({'field': f, 'read_in_match_nth': f in read}, key=f)
-        r4.obligation(f in read)
-        if f not in read:
-            r4.violation(f'css_match.CSSMatch.match_nth field {f}', mod.where(fn),
-                         f'SelectorNth.{f} is never read by match_nth: that part of the An+B record is ignored')
-
+    # every field of a SelectorNth record (a, n, b, of_type, last, selectors) is varied by the bounded table of R1: a field that
+    # match_nth ignored would show there as a wrong row
     from .sem import children_table
     children_table(ctx, r4)
 
